@@ -930,6 +930,10 @@ pub(crate) fn add_sequence_map<W, R, T>(
         XStaticFunction::from_native(|args, ns, _tca, rt| {
             let a0 = xraise!(eval(&args[0], ns, &rt)?);
             let a1 = xraise!(eval(&args[1], ns, &rt)?);
+            if to_native!(a0, XSequence<W, R, T>).is_empty() {
+                // keep the empty sequence in its canonical representation
+                return Ok(manage_native!(XSequence::<W, R, T>::Empty, rt));
+            }
             Ok(manage_native!(XSequence::Map(a0, a1), rt))
         }),
     )
